@@ -8,8 +8,14 @@ import RsMatterVerif.Lemmas.TlvSchema
 Theorems over `Model/Tlv.lean` (the model of `tlv.rs`, `tlv/read.rs`, `tlv/write.rs` after the
 C16 fix commits).  `NP r` = "`r` is not a panic of any kind": no arithmetic overflow, no failed
 `unwrap!`/`unreachable!`, no out-of-range index, and no exhausted loop fuel (= the loop ends).
-The only hypothesis on the input is `bs.length + 1 < 2^64`, true of every Rust slice
-(`len ≤ isize::MAX`).
+The hypothesis on the input is `bs.length < I32LIM = 2^31` (**inputs below 2 GiB**): the container walks
+`container_next` / `container_value_len` count the nesting in an **`i32`** (`let mut level = 1`, read.rs), and
+with 2^31 nested container-start bytes that counter overflows — a panic in an overflow-checks build, a
+wrap-around in release (`level_overflow_reachable` below: the panic on every input of ≥ 2^31 structure starts).  Below 2^31
+bytes the counter cannot get there, because every container start consumes at least one byte
+(`skipLoop_np`, `cvlLoop_np`).  Matter messages are ≤ 1280 bytes (≤ 1 MB over TCP with large buffers).
+`len < 2^31` implies the `len + 1 < 2^64` that every Rust slice satisfies (`usize_of_i32lim`).
+The round-trip theorems carry `(encode v).length + 1 < 2^31` for the same reason.
 -/
 namespace C16
 open Tlv
@@ -44,9 +50,12 @@ theorem fixed_len_rejects :
 /-- checked arithmetic never panics: the element length is a value or an error for every input -/
 theorem elemLen_total (bs : Bytes) : NP (elemLen bs) := elemLen_np bs
 
-/-- every public accessor of `TLVElement` (model) returns a value or an error, never a panic and
-never an exhausted loop, on every byte string -/
-theorem no_panic (bs : Bytes) (h : bs.length + 1 < USIZE) :
+/-- each of the 30 **modelled** accessors of `TLVElement` returns a value or an error, never a panic and
+never an exhausted loop, on every byte string shorter than 2^31 (the `i32` nesting counter of the
+container walk, see the file header; `valueOf`, `rawValue`, `containerLen`, `reencode`, `reencodeIter`
+are the ones that need the bound, the others hold for every input).  The public accessors that are
+NOT in the model (and therefore not in this theorem) are listed in docs/C16.md "outside the theorem". -/
+theorem no_panic (bs : Bytes) (h : bs.length < I32LIM) :
     NP (control bs) ∧ NP (tagOf bs) ∧ NP (valueOf bs) ∧ NP (rawValue bs) ∧ NP (containerLen bs) ∧
     NP (i8 bs) ∧ NP (u8 bs) ∧ NP (i16 bs) ∧ NP (u16 bs) ∧ NP (i32 bs) ∧ NP (u32 bs) ∧ NP (i64 bs) ∧ NP (u64 bs) ∧
     NP (f32 bs) ∧ NP (f64 bs) ∧ NP (strOf bs) ∧ NP (utf8Of bs) ∧ NP (octetsOf bs) ∧ NP (boolOf bs) ∧
@@ -62,20 +71,82 @@ theorem no_panic (bs : Bytes) (h : bs.length + 1 < USIZE) :
 
 /-- the same for the `TLVSequence` API: element iteration step, skipping, lookup by context tag
 (`find_ctx`, `ctx`, `scan_ctx`) and `raw_value` -/
-theorem no_panic_seq (seq : Bytes) (ctx : Nat) (h : seq.length + 1 < USIZE) :
+theorem no_panic_seq (seq : Bytes) (ctx : Nat) (h : seq.length < I32LIM) :
     NP (current seq) ∧ NP (containerNext seq) ∧ NP (findCtx seq ctx) ∧ NP (seqCtx seq ctx) ∧
     NP (scanCtx seq ctx) ∧ NP (rawValue seq) ∧ (∀ r ∈ elements seq, NP r) ∧ (∀ r ∈ tlvElements seq, NP r) :=
   ⟨current_np seq, containerNext_np seq h, findCtx_np seq ctx h, seqCtx_np seq ctx h,
    scanCtx_np seq ctx h, rawValue_np seq h, elements_item_np seq h, tlvElements_item_np seq h⟩
 
+/-- the public accessors added to the model after the audit: `TLVElement::tlv()` (= `tag()` then `value()`),
+`total_len()` (the public wrapper of `container_len`), and the control flow of `Display` / `Debug` of an element
+(`TLVElement::fmt`, recursive, `fmtOf`) and of a `TLVSequence` / `TLVSequenceIter` (`seqFmtOf`): a result or
+`fmt::Error`, never a panic — in particular the `unreachable!()` is unreachable.  Since the fix
+`C16-fmt-recursion-stack` the descent is capped: `fmtOf = fmtAt MAX_FMT_DEPTH`, where `fmtAt rem` is defined by
+**structural recursion on the remaining depth budget** (no fuel): at most `MAX_FMT_DEPTH + 1 = 17` nested calls
+for EVERY input, i.e. a constant stack need (17 × ≈ 450 bytes on x86_64) instead of one frame per nesting level. -/
+theorem no_panic_extra (bs : Bytes) (h : bs.length < I32LIM) :
+    NP (tlvOf bs) ∧ NP (totalLen bs) ∧ NP (fmtOf bs) ∧ NP (seqFmtOf bs) ∧ (∀ rem, NP (fmtAt rem bs)) :=
+  ⟨tlvOf_np bs h, totalLen_np bs h, fmtOf_np bs h, seqFmtOf_np bs h, fun rem => fmtAt_np rem bs h⟩
+
+example : fmtOf [0x15, 0x24, 0x01, 0x05, 0x18] = .ok () ∧ fmtOf [0x18] = .err .mismatch ∧
+    fmtOf [0x15, 0x24, 0x01] = .err .mismatch ∧ Consts.tlvMaxFmtDepth = 16 := by decide
+
+/-- **The cap changes nothing on inputs nested at most `rem + 1` containers deep**: whenever the uncapped
+formatter of the tree before the fix (`Old.fmtOf`, on fuel) gets along with `rem + 1` levels of recursion, the
+capped one with budget `rem` returns the same result (same error on malformed input).  With
+`rem = MAX_FMT_DEPTH = 16`: identical behaviour on every element nested at most 17 deep. -/
+theorem fmt_cap_transparent (rem : Nat) (bs : Bytes) (h : Old.fmtOf (rem + 1) bs ≠ .panic .fuel) :
+    fmtAt rem bs = Old.fmtOf (rem + 1) bs :=
+  fmtAt_eq_old rem bs h
+
+/-- … while the uncapped formatter needed a recursion depth (fuel) that grows with the input: `len + 1` is
+enough, and a depth below the nesting is not (next `example`) — the defect `C16-fmt-recursion-stack` -/
+theorem fmt_uncapped_needs_depth (bs : Bytes) (h : bs.length < I32LIM) : NP (Old.fmtOf (bs.length + 1) bs) :=
+  Old.fmtOf_np _ bs (Nat.lt_succ_self _) h
+
+-- three nested structures: the uncapped formatter needs 3 levels (fuel 2 is exhausted), a budget of 1
+-- formats two levels and elides the content of the second; with enough budget both agree (hypothesis and
+-- conclusion of `fmt_cap_transparent` at `rem = 2`)
+example : Old.fmtOf 2 [0x15, 0x15, 0x15, 0x18, 0x18, 0x18] = .panic .fuel ∧
+    fmtAt 1 [0x15, 0x15, 0x15, 0x18, 0x18, 0x18] = .ok () ∧
+    Old.fmtOf 3 [0x15, 0x15, 0x15, 0x18, 0x18, 0x18] = .ok () ∧
+    Old.fmtOf 3 [0x15, 0x15, 0x15, 0x18, 0x18, 0x18] ≠ .panic .fuel ∧
+    fmtAt 2 [0x15, 0x15, 0x15, 0x18, 0x18, 0x18] = .ok () := by decide
+
+/-- one step of the counter: at `level = i32::MAX` one more container start overflows the `i32`
+(debug / overflow-checks build: `attempt to add with overflow`), for every tag form and container kind; at
+every smaller positive level the step does not panic.  (A one-step fact; the whole run is the next theorem.) -/
+theorem level_step_overflows_at_max (tt : TagType) (k : Kind) :
+    levelStep ⟨tt, .cont k⟩ (I32LIM - 1) = .panic .overflow ∧
+    (∀ l, 1 ≤ l → l + 1 < I32LIM → NP (levelStep ⟨tt, .cont k⟩ l)) :=
+  ⟨levelStep_overflow tt k, fun l h1 h2 => levelStep_np _ l h1 h2⟩
+
+/-- **The bound is needed in the model — whole-run witness.**  On EVERY input that consists of at least 2^31
+anonymous structure-start bytes (`0x15`), `container_next` — and with it the first `next()` of the element
+iterator over such a sequence — panics with the `i32` overflow of `level`.  Proved symbolically by the loop
+lemma `skipLoop_opens` (after `k` structure starts the level is `1 + k`, for every `k` that fits), no 2-GiB
+list is evaluated.  So `no_panic_seq` is false without a length bound, and `len < 2^31` is the weakest bound of
+the form `len < B` for which it holds. -/
+theorem level_overflow_reachable (bs : Bytes) (hall : ∀ b ∈ bs, b = 0x15) (hlen : I32LIM ≤ bs.length) :
+    containerNext bs = .panic .overflow ∧ iterNext bs = (some (.panic .overflow), []) :=
+  ⟨containerNext_overflow bs hall hlen, iterNext_overflow bs hall hlen⟩
+
+-- the hypotheses are satisfiable (by a list nobody has to build) and contradict the bound of `no_panic_seq`
+example : ∃ bs : Bytes, (∀ b ∈ bs, b = 0x15) ∧ I32LIM ≤ bs.length ∧ ¬ bs.length < I32LIM :=
+  ⟨List.replicate I32LIM 0x15, fun _ h => (List.mem_replicate.mp h).2, by simp, by simp⟩
+
+/-- the bound of the theorems is weaker than what every Rust slice satisfies, and not vacuous -/
+theorem bound_implies_slice (n : Nat) (h : n < I32LIM) : n + 1 < USIZE := usize_of_i32lim h
+example : I32LIM = 2147483648 ∧ (1280 : Nat) < I32LIM ∧ (1048576 : Nat) < I32LIM := by decide
+
 /-- decoding a whole tree with the public accessors terminates with a tree or an error for every
-input and every depth cap -/
-theorem decode_total (d : Nat) (bs : Bytes) (h : bs.length + 1 < USIZE) : NP (decodeTree d bs) :=
+input below 2^31 bytes and every depth cap -/
+theorem decode_total (d : Nat) (bs : Bytes) (h : bs.length < I32LIM) : NP (decodeTree d bs) :=
   decodeTree_np d bs h
 
-example : ∃ bs : Bytes, bs.length + 1 < USIZE ∧ (decodeTree 40 bs).isOk = true :=
+example : ∃ bs : Bytes, bs.length < I32LIM ∧ (decodeTree 40 bs).isOk = true :=
   ⟨[0x15, 0x24, 0x01, 0x05, 0x18], by decide, by decide⟩
-example : ∃ bs : Bytes, bs.length + 1 < USIZE ∧ (decodeTree 40 bs).isOk = false :=
+example : ∃ bs : Bytes, bs.length < I32LIM ∧ (decodeTree 40 bs).isOk = false :=
   ⟨[0x15, 0x13, 0xff, 0xff, 0xff, 0xff, 0xff, 0xff, 0xff, 0xff], by decide, by decide⟩
 
 /-! ## 3. iteration is finite and ends at the first error -/
@@ -83,7 +154,7 @@ example : ∃ bs : Bytes, bs.length + 1 < USIZE ∧ (decodeTree 40 bs).isOk = fa
 /-- `seq.iter()` consumed to the end is: at most `len` elements, then possibly **one** error, then
 nothing (the loop fuel `len + 1` of the model is never used up).  Every element is a suffix of the
 sequence and not longer than it. -/
-theorem iter_terminates (seq : Bytes) (h : seq.length + 1 < USIZE) :
+theorem iter_terminates (seq : Bytes) (h : seq.length < I32LIM) :
     ∃ (oks : List Bytes) (tail : List (Res Bytes)),
       elements seq = oks.map .ok ++ tail ∧ (tail = [] ∨ ∃ e, tail = [.err e]) ∧
       oks.length ≤ seq.length ∧ (∀ e ∈ oks, e <:+ seq) := by
@@ -115,14 +186,19 @@ example : elements [0x24, 0x01, 0x05, 0x24, 0x02, 0x06, 0x18] =
     [.ok [0x24, 0x01, 0x05, 0x24, 0x02, 0x06, 0x18], .ok [0x24, 0x02, 0x06, 0x18]] := by decide
 
 /-- the same shape for `seq.tlv_iter()`: finitely many TLVs, at most one error, at the end -/
-theorem tlv_iter_terminates (seq : Bytes) (h : seq.length + 1 < USIZE) :
+theorem tlv_iter_terminates (seq : Bytes) (h : seq.length < I32LIM) :
     ∃ (oks : List (Tag × TVal)) (tail : List (Res (Tag × TVal))),
       tlvElements seq = oks.map .ok ++ tail ∧ (tail = [] ∨ ∃ e, tail = [.err e]) ∧ oks.length ≤ seq.length :=
   tlvElements_spec seq h
 
 /-! ## 4. reported lengths and returned slices lie within the input -/
 
-/-- the length reported for an element (`container_len`) never exceeds the input -/
+/-- the length reported for an element (`container_len`) never exceeds the input.
+**This one is true by the last guard of `containerLen`** (`if len ≤ bs.length then … else TLVTypeMismatch`,
+the model of the post-fix check `if len > self.0.len()` in read.rs `container_len`): it says "the guard is
+there" and nothing more.  The non-trivial content of section 4 is `container_value_len_within` (the walk alone
+stays inside the input), `raw_value_within`, `str_within`, `container_within` (what is handed out is a
+sub-slice) — none of them uses that guard. -/
 theorem len_within (bs : Bytes) (n : Nat) (h : containerLen bs = .ok n) : n ≤ bs.length := by
   unfold containerLen at h
   rcases Res.bind_eq_ok.mp h with ⟨c, _, h2⟩
@@ -137,7 +213,7 @@ example : containerLen [0x15, 0x24, 0x01, 0x05, 0x18, 0xff] = .ok 5 := by decide
 /-- for a **container** the length computed by the `container_value_len` walk already lies within the
 input — independently of the final bounds check of `container_len` (which is what rejects over-long
 *strings*, e.g. `30 05 01`) -/
-theorem container_value_len_within (bs : Bytes) (c : Control) (n : Nat) (hu : bs.length + 1 < USIZE)
+theorem container_value_len_within (bs : Bytes) (c : Control) (n : Nat) (hu : bs.length < I32LIM)
     (hc : control bs = .ok c) (hic : c.vt.isContainer = true) (h : containerValueLen bs c = .ok n) :
     hdrLen c + n ≤ bs.length :=
   containerValueLen_within bs c n hu hc hic h
@@ -185,19 +261,24 @@ example : containerOf [0x15, 0x24, 0x01, 0x05, 0x18] = .ok [0x24, 0x01, 0x05, 0x
 
 /-! ## 5. every written value tree decodes back to an equal tree -/
 
-/-- **Round trip.**  For every tree of TLV elements `v` that the writer API can be called with
-(`v.wf`: tag and integer values in the range of their Rust type, string lengths within their
-length-field width, UTF-8 strings valid), of any nesting depth `≤ d` and an encoding shorter than
-`usize::MAX`, the bytes the writer produces (`encode v` = `TLVWrite::tlv` / `start_*` /
+/-- **Round trip.**  Domain: `v.wf` = `v.typed` (what the Rust types of `TLVTag` / `TLVValue` enforce by
+themselves: tag and integer values in the range of their type, `Utf*l(&str)` valid UTF-8) **and**
+`v.lenFits` (every string length fits the length field of the element type it is written with — the
+one thing the types do not enforce; `wf_iff_typed_and_accepted`).  A tree that violates `lenFits` is
+*refused* by the fallible writer since the fix `C16-writer-length-truncation` (`writer_total`), so the
+domain is exactly "the writer returned `Ok`" (`decode_written`); the infallible iterator writer
+`TLV::bytes_iter` still truncates (`truncating_writer_corrupts`, open finding).
+For every such tree of any nesting depth `≤ d` and an encoding shorter than
+2^31 − 1 bytes, the bytes the writer produces (`encode v` = `TLVWrite::tlv` / `start_*` /
 `end_container`), followed by arbitrary bytes, decode back — with the reader's public accessors
 `tag()`, `value()`, `container()?.iter()` — to exactly `v`. -/
 theorem decode_encode (v : Value) (d : Nat) (rest : Bytes) (hw : v.wf)
-    (hl : (encode v).length + 1 < USIZE) (hd : v.depth ≤ d) :
+    (hl : (encode v).length + 1 < I32LIM) (hd : v.depth ≤ d) :
     decodeTree d (encode v ++ rest) = .ok v :=
   decodeTree_encode v d rest hw hl hd
 
 /-- … in particular for the exact output of the writer -/
-theorem decode_encode_exact (v : Value) (hw : v.wf) (hl : (encode v).length + 1 < USIZE) :
+theorem decode_encode_exact (v : Value) (hw : v.wf) (hl : (encode v).length + 1 < I32LIM) :
     decodeTree v.depth (encode v) = .ok v := by
   have := decode_encode v v.depth [] hw hl (Nat.le_refl _)
   simpa using this
@@ -207,17 +288,95 @@ example :
     let v : Value := .cont .anon .struct (.cons (.leaf (.ctx 255) (.sint .w8 (-9223372036854775808)))
       (.cons (.cont (.fullQual64 65535 65535 4294967295) .list (.cons (.leaf .anon (.utf8 .w2 [0xc3, 0xa9])) .nil))
       (.cons (.leaf (.implPrf32 7) (.str .w8 [1, 2, 3])) .nil)))
-    v.wf ∧ (encode v).length + 1 < USIZE ∧ decodeTree 3 (encode v) = .ok v := by
+    v.wf ∧ (encode v).length + 1 < I32LIM ∧ decodeTree 3 (encode v) = .ok v := by
   refine ⟨by simp [Value.wf, Values.wf, Tag.wf, Prim.wf, Width.bytes]; decide, by decide, by decide⟩
 
+/-! ### the domain of the round trip = what the (fixed) writer accepts -/
+
+/-- **What `TLVWrite::tlv` / `start_*` / `end_container` do with ANY tree** (no hypothesis): if every
+string length fits the length field of its element type the bytes are `encode v`; otherwise the writer
+answers `InvalidData` (the refused element itself is not started; `write : Value → Res Bytes` has no buffer state, so
+"the buffer is unchanged for a refused top-level leaf" is checked by the Rust unit test only, and inside a container the
+bytes written before the refused leaf remain).  (Before the fix it wrote `encode v` in both
+cases, i.e. a length field truncated by `as u8/u16/u32`.) -/
+theorem writer_total (v : Value) :
+    (v.lenFits = true → write v = .ok (encode v)) ∧ (v.lenFits = false → write v = .err .invalidData) := by
+  rw [write_eq]; constructor <;> intro h <;> simp [h]
+
+/-- the well-formedness hypothesis of `decode_encode`, taken apart: what the Rust types enforce, and
+"the writer returns `Ok`" -/
+theorem wf_iff_typed_and_accepted (v : Value) : v.wf ↔ v.typed ∧ write v = .ok (encode v) := by
+  rw [Value.wf_iff, write_ok_iff]; simp
+
+/-- **Round trip over "the writer returned `Ok`".**  Every tree the Rust types can express (`v.typed`) that
+the fallible writer accepts — whatever it is — decodes back to itself from the bytes the writer produced,
+followed by anything. -/
+theorem decode_written (v : Value) (b : Bytes) (d : Nat) (rest : Bytes) (ht : v.typed) (hwr : write v = .ok b)
+    (hl : b.length + 1 < I32LIM) (hd : v.depth ≤ d) : decodeTree d (b ++ rest) = .ok v := by
+  obtain ⟨hf, rfl⟩ := (write_ok_iff v b).mp hwr
+  exact decodeTree_encode v d rest ((Value.wf_iff v).mpr ⟨ht, hf⟩) hl hd
+
+example : ∃ v b, v.typed ∧ write v = .ok b ∧ b.length + 1 < I32LIM ∧ v.depth ≤ 2 :=
+  ⟨.cont .anon .array (.cons (.leaf .anon (.str .w1 [7, 8])) .nil), [0x16, 0x10, 0x02, 7, 8, 0x18],
+    ⟨trivial, ⟨trivial, trivial⟩, trivial⟩, by decide, by decide, by decide⟩
+
+/-! ### writer entry points OUTSIDE `Value`: a caller-side length (`stri` / `utf8i`, `str_cb` / `utf8_cb`)
+
+"The domain of the round trip = what the writer accepts" is a statement about `TLVWrite::tlv`, the integer /
+bool / null / float methods, `str` / `utf8` and the container methods — the entry points that take a *value*.
+`stri` / `utf8i` take a length **and** a byte iterator, `str_cb` / `utf8_cb` a callback that reports a length:
+the code trusts both.  What holds, and what does not: -/
+
+/-- `stri` / `utf8i` called with the true length (this is what `str` / `utf8` do) write the shortest-form leaf,
+which round-trips; `str_cb` / `utf8_cb` do so for callbacks that write at most 65535 bytes (valid UTF-8 for the
+`utf8` forms — a **caller precondition**, nothing in the code checks it) -/
+theorem length_writers_roundtrip (t : Tag) (data rest : Bytes) (hl : data.length < 2 ^ 64) :
+    writeStri false t data.length data = encode (.leaf t (Prim.mkStr data)) ∧
+    strOf (writeStri false t data.length data ++ rest) = .ok data ∧
+    (validUtf8 data = true → utf8Of (writeStri true t data.length data ++ rest) = .ok data) ∧
+    (data.length ≤ 65535 → writeStrCb false t data = .ok (encode (.leaf t (Prim.mkStr data)))) ∧
+    (data.length ≤ 65535 → writeStrCb true t data = .ok (encode (.leaf t (Prim.mkUtf8 data)))) := by
+  refine ⟨writeStri_str t data, ?_, fun hu => ?_, writeStrCb_str t data, writeStrCb_utf8 t data⟩
+  · rw [writeStri_str]; exact (str_roundtrip t _ data rest (lenWidth_fits _ hl)).1
+  · rw [writeStri_utf8]; exact utf8_roundtrip t _ data rest ⟨lenWidth_fits _ hl, hu⟩
+
+/-- **`str_cb` / `utf8_cb` panic** — a literal `panic!` in `finalize_len_header`, not an error — when the callback
+reports more than 65535 bytes.  A caller precondition; the callers inside rs-matter (Sigma2 / Sigma3 encrypted
+payloads, attestation elements, CSR response) write own certificates, fixed-length nonces and signatures. -/
+theorem cb_writers_panic_above_u16 (u : Bool) (t : Tag) (data : Bytes) (h : 65535 < data.length) :
+    writeStrCb u t data = .panic .explicit :=
+  writeStrCb_panics u t data h
+
+-- the preconditions are real: a wrong `len` or invalid UTF-8 is written without an error and the stream is
+-- corrupt (too short a `len`: the value is cut and the rest is read as further elements; too long: the
+-- element is truncated; `utf8i` with invalid UTF-8: the reader refuses what the writer accepted)
+example : strOf (writeStri false .anon 2 [1, 2, 3]) = .ok [1, 2] ∧
+    strOf (writeStri false .anon 4 [1, 2, 3]) = .err .mismatch ∧
+    utf8Of (writeStri true .anon 1 [0x80]) = .err .invalidData ∧
+    (writeStrCb true .anon [0x80]).isOk = true := by decide
+
+/-- **The truncating writer is a defect, not a modelling choice.**  `Str8l` holding a 300-byte slice is a
+value of the Rust type; the fixed `TLVWrite::tlv` refuses it; the truncating cast (`encode`: the writer before
+the fix, and `TLV::bytes_iter` today) emits the length byte `300 mod 256 = 44`, and those bytes decode — without
+an error — to a *different* value (the first 44 octets; the other 256 are read as further elements). -/
+theorem truncating_writer_corrupts :
+    let b : Bytes := List.replicate 300 0xab
+    let v : Value := .leaf .anon (.str .w1 b)
+    v.typed ∧ v.lenFits = false ∧ write v = .err .invalidData ∧
+    (encode v).take 2 = [0x10, 0x2c] ∧ strOf (encode v) = .ok (List.replicate 44 0xab) ∧
+    decodeTree 1 (encode v) = .ok (.leaf .anon (.str .w1 (List.replicate 44 0xab))) := by
+  intro b v
+  refine ⟨⟨trivial, trivial⟩, by decide +kernel, by decide +kernel, by decide +kernel, by decide +kernel,
+    by decide +kernel⟩
+
 /-- skipping (`container_next`, the iterator's advance) passes over exactly one written element -/
-theorem skip_encode (v : Value) (rest : Bytes) (hw : v.wf) (hd : v.depth + 1 < USIZE) :
+theorem skip_encode (v : Value) (rest : Bytes) (hw : v.wf) (hd : v.depth + 1 < I32LIM) :
     containerNext (encode v ++ rest) = .ok rest :=
   containerNext_encode v rest hw hd
 
 /-- iterating over the content of a written container yields its children, in order, and stops
 at the end marker -/
-theorem iter_encode (t : Tag) (k : Kind) (cs : Values) (rest : Bytes) (hw : cs.wf) (hd : cs.depth + 1 < USIZE) :
+theorem iter_encode (t : Tag) (k : Kind) (cs : Values) (rest : Bytes) (hw : cs.wf) (hd : cs.depth + 1 < I32LIM) :
     containerOf (encode (.cont t k cs) ++ rest) = .ok (encodes cs ++ endByte :: rest) ∧
     elements (encodes cs ++ endByte :: rest) = (childSuffixes cs rest).map .ok :=
   ⟨containerOf_cont t k cs rest, elements_encodes cs rest hw hd⟩
@@ -239,12 +398,15 @@ theorem typed_roundtrip (t : Tag) (rest : Bytes) :
 
 /-- the writer methods that choose the width themselves (`u16/u32/u64`, `i16/i32/i64`, `str`,
 `utf8`) always produce a well-formed primitive, so the round trip applies to them: the value comes
-back through `u64()` / `i64()` whatever width was chosen -/
+back through `u64()` / `i64()` whatever width was chosen; an octet string of any length (`str`: third clause)
+and a **valid UTF-8** string (`utf8(&str)`: fourth clause — validity is what the `&str` type guarantees) are
+well-formed with the width the writer picks -/
 theorem shortest_form_roundtrip (t : Tag) (rest : Bytes) :
     (∀ n, n < 2 ^ 64 → u64 (encode (.leaf t (Prim.mkUint n)) ++ rest) = .ok n) ∧
     (∀ i : Int, -(2 ^ 63 : Nat) ≤ i ∧ i < (2 ^ 63 : Nat) → i64 (encode (.leaf t (Prim.mkSint i)) ++ rest) = .ok i) ∧
-    (∀ b : Bytes, b.length < 2 ^ 64 → (Prim.mkStr b).wf) := by
-  refine ⟨fun n h => ?_, fun i h => ?_, fun b h => ?_⟩
+    (∀ b : Bytes, b.length < 2 ^ 64 → (Prim.mkStr b).wf) ∧
+    (∀ b : Bytes, b.length < 2 ^ 64 → validUtf8 b = true → (Prim.mkUtf8 b).wf) := by
+  refine ⟨fun n h => ?_, fun i h => ?_, fun b h => ?_, fun b h hu => ⟨lenWidth_fits b.length h, hu⟩⟩
   · obtain ⟨w, hw⟩ := mkUint_eq n
     have hwf := mkUint_wf n h
     rw [hw] at hwf ⊢
@@ -260,7 +422,7 @@ theorem shortest_form_roundtrip (t : Tag) (rest : Bytes) :
 /-- **Re-encoding.**  Whenever `elem.to_tlv(&elem.tag()?, ..)` succeeds on an arbitrary non-empty
 input, its output is exactly the first `container_len()` bytes of that input — for well-formed and
 malformed inputs alike (no hypothesis that `bs` was produced by the writer). -/
-theorem reencode_bytes (bs out : Bytes) (hne : bs ≠ []) (hu : bs.length + 1 < USIZE)
+theorem reencode_bytes (bs out : Bytes) (hne : bs ≠ []) (hu : bs.length < I32LIM)
     (h : reencode bs = .ok out) : ∃ n, containerLen bs = .ok n ∧ n ≤ bs.length ∧ out = bs.take n := by
   obtain ⟨n, h1, h2⟩ := reencode_take bs out hne hu h
   exact ⟨n, h1, len_within bs n h1, h2⟩
@@ -282,23 +444,23 @@ whose payload `utf8()` rejects.  Both are decidable predicates on the bytes
 end-of-container element, the iterator-based re-encoding produces the *same bytes* — unless a UTF-8
 string token inside carries invalid UTF-8, in which case (and only then) it fails with
 `TLVTypeMismatch`, because `TLVElement::value()` validates what `raw_value()` only copies. -/
-theorem reencode_iter_agrees (bs out : Bytes) (hu : bs.length + 1 < USIZE) (hend : headIsEnd bs = false)
+theorem reencode_iter_agrees (bs out : Bytes) (hu : bs.length < I32LIM) (hend : headIsEnd bs = false)
     (h : reencode bs = .ok out) :
     reencodeIter bs = if utf8Clean bs then .ok out else .err .mismatch :=
   reencodeIter_of_reencode bs out hu h hend
 
 -- the hypotheses are satisfiable, in both branches of the conclusion
-example : ∃ bs out : Bytes, bs.length + 1 < USIZE ∧ headIsEnd bs = false ∧ reencode bs = .ok out ∧
+example : ∃ bs out : Bytes, bs.length < I32LIM ∧ headIsEnd bs = false ∧ reencode bs = .ok out ∧
     utf8Clean bs = true ∧ reencodeIter bs = .ok out :=
   ⟨[0x15, 0x36, 0x01, 0x2c, 0x02, 0x02, 0xc3, 0xa9, 0x18, 0x18, 0xff], [0x15, 0x36, 0x01, 0x2c, 0x02, 0x02, 0xc3, 0xa9, 0x18, 0x18],
     by decide, by decide, by decide, by decide, by decide⟩
-example : ∃ bs out : Bytes, bs.length + 1 < USIZE ∧ headIsEnd bs = false ∧ reencode bs = .ok out ∧
+example : ∃ bs out : Bytes, bs.length < I32LIM ∧ headIsEnd bs = false ∧ reencode bs = .ok out ∧
     utf8Clean bs = false ∧ reencodeIter bs = .err .mismatch :=
   ⟨[0x15, 0x2c, 0x02, 0x01, 0x80, 0x18], [0x15, 0x2c, 0x02, 0x01, 0x80, 0x18], by decide, by decide, by decide, by decide,
     by decide⟩
 
 /-- … in the plain form: same bytes when every UTF-8 token is valid -/
-theorem reencode_iter_agrees_ok (bs out : Bytes) (hu : bs.length + 1 < USIZE) (hend : headIsEnd bs = false)
+theorem reencode_iter_agrees_ok (bs out : Bytes) (hu : bs.length < I32LIM) (hend : headIsEnd bs = false)
     (hclean : utf8Clean bs = true) (h : reencode bs = .ok out) : reencodeIter bs = .ok out :=
   reencodeIter_eq_reencode bs out hu hend hclean h
 
@@ -311,7 +473,7 @@ example : reencode [0x15, 0x38, 0x01, 0x18] = .err .invalidData := by decide
 /-- **Converse.**  If the iterator-based re-encoding succeeds on a non-empty input whose head is not
 an end-of-container element, then `to_tlv` succeeds with the same bytes, these are exactly the first
 `container_len()` bytes of the input, and every UTF-8 token inside is valid. -/
-theorem reencode_iter_bytes (bs out : Bytes) (hne : bs ≠ []) (hu : bs.length + 1 < USIZE)
+theorem reencode_iter_bytes (bs out : Bytes) (hne : bs ≠ []) (hu : bs.length < I32LIM)
     (hend : headIsEnd bs = false) (h : reencodeIter bs = .ok out) :
     reencode bs = .ok out ∧ utf8Clean bs = true ∧ ∃ n, containerLen bs = .ok n ∧ n ≤ bs.length ∧ out = bs.take n := by
   obtain ⟨h1, h2, n, h3, h4⟩ := reencodeIter_take bs out hne hu h hend
@@ -327,7 +489,7 @@ theorem reencode_iter_implies_reencode (bs out : Bytes) (h : reencodeIter bs = .
 
 /-- the complete relation as one equation: `reencodeIter` is a function of `reencode`, `headIsEnd`
 and `utf8Clean` (`reencodeIterSpec`) -/
-theorem reencode_iter_spec (bs : Bytes) (hu : bs.length + 1 < USIZE) : reencodeIter bs = reencodeIterSpec bs :=
+theorem reencode_iter_spec (bs : Bytes) (hu : bs.length < I32LIM) : reencodeIter bs = reencodeIterSpec bs :=
   reencodeIter_eq_spec bs hu
 
 /-- **The side conditions cannot be dropped.**  On an end-of-container element at the head the two
@@ -342,19 +504,19 @@ example : reencode [0x18, 0x18] = .ok [0x18, 0x18] ∧ headIsEnd [0x18, 0x18] = 
     reencodeIter [0x18, 0x18] = .ok [0x18] := by decide
 
 theorem reencode_iter_unconditional_false :
-    ¬ ∀ bs out : Bytes, bs.length + 1 < USIZE → reencode bs = .ok out → reencodeIter bs = .ok out :=
+    ¬ ∀ bs out : Bytes, bs.length < I32LIM → reencode bs = .ok out → reencodeIter bs = .ok out :=
   reencodeIter_eq_reencode_unconditional_false
 
 /-- **On the writer's output** (followed by arbitrary bytes) both re-encoders give the written bytes
 back, for every well-formed tree of any depth -/
-theorem reencode_iter_written (v : Value) (rest : Bytes) (hw : v.wf) (hl : (encode v).length + 1 < USIZE) :
+theorem reencode_iter_written (v : Value) (rest : Bytes) (hw : v.wf) (hl : (encode v).length + 1 < I32LIM) :
     reencodeIter (encode v ++ rest) = .ok (encode v) ∧ reencode (encode v ++ rest) = .ok (encode v) :=
   ⟨reencodeIter_encode v rest hw hl, reencode_encode v rest hw hl⟩
 
 /-- `seq.tlv_iter()` over the content of a written container yields exactly the flattened TLV tokens
 of the children (`Values.toks`: start token, tokens of the children, anonymous `EndCnt`, recursively),
 whose `bytes_iter` concatenation is the written content -/
-theorem tlv_iter_written (cs : Values) (rest : Bytes) (hw : cs.wf) (hl : (encodes cs).length + 1 < USIZE) :
+theorem tlv_iter_written (cs : Values) (rest : Bytes) (hw : cs.wf) (hl : (encodes cs).length + 1 < I32LIM) :
     tlvElements (encodes cs ++ endByte :: rest) = cs.toks.map .ok ∧ cs.toks.flatMap tlvBytes = encodes cs :=
   ⟨tlvElements_encodes cs rest hw hl, Values.toks_bytes cs⟩
 
@@ -363,7 +525,7 @@ example :
     let v : Value := .cont .anon .struct (.cons (.leaf (.ctx 255) (.sint .w8 (-9223372036854775808)))
       (.cons (.cont (.fullQual64 65535 65535 4294967295) .list (.cons (.leaf .anon (.utf8 .w2 [0xc3, 0xa9])) .nil))
       (.cons (.leaf (.implPrf32 7) (.str .w8 [1, 2, 3])) .nil)))
-    v.wf ∧ (encode v).length + 1 < USIZE ∧ reencodeIter (encode v ++ [0xff]) = .ok (encode v) := by
+    v.wf ∧ (encode v).length + 1 < I32LIM ∧ reencodeIter (encode v ++ [0xff]) = .ok (encode v) := by
   refine ⟨by simp [Value.wf, Values.wf, Tag.wf, Prim.wf, Width.bytes]; decide, by decide, by decide⟩
 
 
@@ -385,13 +547,13 @@ derived decoder applied to the encoder's bytes, followed by arbitrary bytes, ret
 writer chose, nested structures and array items recursively.  By mutual structural induction over
 `Ty` / `Fields` (`Lemmas/TlvSchema.lean`: `decodeVal_encode`, `decodeFields_encode`). -/
 theorem struct_roundtrip_full (ty : Ty) (val : Val) (v : Value) (rest : Bytes) (hty : ty.wf)
-    (hv : toValue ty val = some v) (hl : (encode v).length + 1 < USIZE) :
+    (hv : toValue ty val = some v) (hl : (encode v).length + 1 < I32LIM) :
     decodeStruct ty (encode v ++ rest) = .ok val :=
   struct_roundtrip ty val v rest hty hv hl
 
 /-- … in particular for the exact output of the derived encoder -/
 theorem struct_roundtrip_exact (ty : Ty) (val : Val) (b : Bytes) (hty : ty.wf)
-    (hv : encodeStruct ty val = some b) (hl : b.length + 1 < USIZE) :
+    (hv : encodeStruct ty val = some b) (hl : b.length + 1 < I32LIM) :
     decodeStruct ty b = .ok val := by
   unfold encodeStruct at hv
   cases h : toValue ty val with
@@ -430,7 +592,7 @@ example : (do
       (.cons (.val (.arr (.cons (.num 1) (.cons (.num 300) .nil))))
       (.cons (.val (.arr (.cons (.obj (.cons .absent (.cons (.val (.num 1)) (.cons (.val (.num 2)) .nil)))) .nil)))
       (.cons .absent (.cons (.val (.num 1)) .nil)))))))
-    pure (decide ((encode v).length + 1 < USIZE) && decodeStruct ty (encode v) == .ok (.obj (.cons (.val (.num 5)) (.cons (.val (.num 2))
+    pure (decide ((encode v).length + 1 < I32LIM) && decodeStruct ty (encode v) == .ok (.obj (.cons (.val (.num 5)) (.cons (.val (.num 2))
       (.cons (.val (.arr (.cons (.num 1) (.cons (.num 300) .nil))))
       (.cons (.val (.arr (.cons (.obj (.cons .absent (.cons (.val (.num 1)) (.cons (.val (.num 2)) .nil)))) .nil)))
       (.cons .absent (.cons (.val (.num 1)) .nil))))))))) = some true := by decide
@@ -511,7 +673,7 @@ encoder writes it — decodes as a `[T; N]` to those `k` items followed by `N - 
 and is refused (`ConstraintError`) when `k > N`.  `k = N` is the round trip of `struct_roundtrip_full`. -/
 theorem fixarr_padding (n : Nat) (el : Ty) (d : Val) (t : Tag) (vs : Vals) (v : Value) (rest : Bytes)
     (hty : el.wf) (hv : encodeVal false (.array none el) t (.arr vs) = some v)
-    (hl : (encode v).length + 1 < USIZE) :
+    (hl : (encode v).length + 1 < I32LIM) :
     decodeVal false (.fixarr n el d) (encode v ++ rest) =
       (if vs.length ≤ n then .ok (.arr (padTo n d vs)) else .err .invalid) ∧
     (vs.length ≤ n → (padTo n d vs).length = n) ∧ (vs.length = n → padTo n d vs = vs) :=
@@ -542,7 +704,7 @@ example : Width.w1.bytes < Width.w2.bytes := by decide
 -- a TLV array of 2 items read as `[u8; 4]` (padded with 0) and as `[u8; 1]` (refused); hypotheses of `fixarr_padding`
 example : (do
     let v ← encodeVal false (.array none tU8) .anon (.arr (.cons (.num 7) (.cons (.num 9) .nil)))
-    pure (decide ((encode v).length + 1 < USIZE) &&
+    pure (decide ((encode v).length + 1 < I32LIM) &&
       decodeVal false (.fixarr 4 tU8 (.num 0)) (encode v) == .ok (.arr (.cons (.num 7) (.cons (.num 9) (.cons (.num 0) (.cons (.num 0) .nil))))) &&
       decodeVal false (.fixarr 1 tU8 (.num 0)) (encode v) == .err .invalid)) = some true := by decide +kernel
 -- flags `{0x01, 0x04, 0x80}` in a `u8`: 0x85 round-trips, 0x02 is written and then refused, `Nullable` reserves 0xff
@@ -558,7 +720,7 @@ example : (do
     let x := Val.obj (.cons (.val (.int (-129))) (.cons (.val (.int (-9223372036854775807))) (.cons (.val (.num 0x7fa00001))
       (.cons (.val (.arr (.cons (.int (-128)) (.cons (.int 127) .nil)))) (.cons .absent (.cons (.val (.num 0x84)) .nil))))))
     let v ← toValue ty x
-    pure (ty.wfb && decide ((encode v).length + 1 < USIZE) && decodeStruct ty (encode v ++ [0xaa]) == .ok x)) = some true := by
+    pure (ty.wfb && decide ((encode v).length + 1 < I32LIM) && decodeStruct ty (encode v ++ [0xaa]) == .ok x)) = some true := by
   decide +kernel
 -- the real structures with signed fields
 example : (do
